@@ -108,7 +108,10 @@ var c17Seeds = []string{
 	`{job="j"} | logfmt lvl=""`, `{job="j"} | json lvl=""`, `{job="j"} | pattern ""`, `{job="j"} |= ip("")`, `{job="j"} | addr == ip("")`, `count_over_time({job="j"} | logfmt lvl="" [1m])`,
 	`label_replace(count_over_time({job="j"}[5s]), "", "", "", "")`, `sum_over_time({job="j"} | unwrap v | v="" [5s])`, `quantile_over_time(0, {job="j"} | unwrap bytes(v) [0s])`, `topk(1, count_over_time({job=""}[1ns] offset 0s)) by ()`,
 	`topk(9223372036854775807, count_over_time({job="j"}[5s]))`, `bottomk(4611686018427387904, sum by (app) (count_over_time({job="j"}[5s])))`, `topk(2147483648, count_over_time({job="j"}[5s])) by (app)`,
-	`quantile_over_time(1e308, {job="j"} | unwrap v [5s])`, `count_over_time({job="j"}[9223372036s])`, `count_over_time({job="j"}[1ns] offset 9223372036s)`,
+	`quantile_over_time(1e308, {job="j"} | unwrap v [5s])`,
+	// parameters outside [0,1] over series that do have several samples (one series through the grouping)
+	`quantile_over_time(1.5, {job="j"} | unwrap v [1m]) by (job)`, `quantile_over_time(7, {job="j"} | unwrap v [1m]) by ()`, `quantile_over_time(2, {job="j"} | unwrap status [1m]) without (app, status, dur, size, addr, v, msg)`,
+	`quantile_over_time(1.0000001, {job="j"} | logfmt | unwrap v [1m]) by (job)`, `sum(quantile_over_time(99, {job="j"} | unwrap bytes(size) [1m]) by (job))`, `count_over_time({job="j"}[9223372036s])`, `count_over_time({job="j"}[1ns] offset 9223372036s)`,
 	`{job="j"} # comment`, "{job=\"j\"}\n|= `raw`\n| json", `{job="j"} |= "\x00\xff"`, `{job="j"} |~ "(a|b)*c{1,3}[[:alpha:]]\\pL"`,
 }
 
@@ -209,6 +212,9 @@ type c17Input struct {
 	Daemon  int `json:"daemon,omitempty"`
 	LongLog int `json:"long_log,omitempty"`
 	BreakAt int `json:"break_at,omitempty"`
+	// Silent > 0: the container listed at that (1-based) position has no record in the range -- among
+	// others that have.
+	Silent int `json:"silent,omitempty"`
 }
 
 // c17Inventory lays the input's records out as container logs (a pure function of the input).
@@ -217,8 +223,14 @@ func c17Inventory(in c17Input) []CSpec {
 	for i := range inv {
 		inv[i] = CSpec{ID: fmt.Sprintf("id%d", i), Name: fmt.Sprintf("/c%d", i), Image: "img", State: "running", Labels: map[string]string{"job": "j", "app": "x"}}
 	}
+	var live []int
+	for i := range inv {
+		if i != in.Silent-1 {
+			live = append(live, i)
+		}
+	}
 	for i, rec := range in.Recs {
-		ci := i % in.Daemon
+		ci := live[i%len(live)]
 		inv[ci].Frames = append(inv[ci].Frames, Frame{Type: byte(1 + i%2), TS: rec.TS, Body: rec.Line})
 	}
 	for i := range inv {
@@ -226,18 +238,19 @@ func c17Inventory(in c17Input) []CSpec {
 	}
 	// only ordinary-sized lines are repeated: some stages cost seconds on one 80 KB line, and a log of
 	// hundreds of them is a resource request (8 minutes measured), not a question of termination
+	long := live[0]
 	var base []Frame
-	for _, f := range inv[0].Frames {
+	for _, f := range inv[long].Frames {
 		if len(f.Body) <= 4096 {
 			base = append(base, f)
 		}
 	}
 	if len(base) > 0 {
-		lastTS := inv[0].Frames[len(inv[0].Frames)-1].TS
-		for k := 0; len(inv[0].Frames) < in.LongLog; k++ {
+		lastTS := inv[long].Frames[len(inv[long].Frames)-1].TS
+		for k := 0; len(inv[long].Frames) < in.LongLog; k++ {
 			f := base[k%len(base)]
 			f.TS = lastTS + int64(k+1)*1e6
-			inv[0].Frames = append(inv[0].Frames, f)
+			inv[long].Frames = append(inv[long].Frames, f)
 		}
 	}
 	if last := &inv[len(inv)-1]; in.BreakAt >= 0 && in.BreakAt < len(last.Frames) {
@@ -297,6 +310,9 @@ func c17Gen(seed int64, idx int, big bool) c17Input {
 		in.LongLog = vk.Pick(r, []int{0, 70, 150, 400})
 		if r.Chance(1, 3) {
 			in.BreakAt = r.Intn(6)
+		}
+		if in.Daemon >= 2 && r.Chance(1, 2) {
+			in.Silent = 1 + r.Intn(in.Daemon-1) // a silent container listed before a talking one
 		}
 	}
 	return in
